@@ -9,6 +9,7 @@ import (
 	"fmt"
 	"io"
 	"log/slog"
+	"os"
 	"regexp"
 	"runtime"
 	"sync"
@@ -112,6 +113,20 @@ func (c *Capture) Write(p []byte) (int, error) {
 	c.Chunks = append(c.Chunks, append([]byte(nil), p...))
 	c.mu.Unlock()
 	return len(p), nil
+}
+
+// FdCapture is a Capture that also looks like an *os.File that is not a terminal (Fd() of an open /dev/null).
+type FdCapture struct {
+	Capture
+}
+
+var devNull = func() *os.File { f, _ := os.OpenFile(os.DevNull, os.O_WRONLY, 0); return f }()
+
+func (c *FdCapture) Fd() uintptr {
+	if devNull == nil {
+		return ^uintptr(0)
+	}
+	return devNull.Fd()
 }
 
 func (c *Capture) Take() [][]byte {
